@@ -15,6 +15,7 @@ import (
 	"runtime"
 	"sort"
 	"strconv"
+	"strings"
 	"sync"
 	"time"
 )
@@ -143,6 +144,7 @@ type Result struct {
 	Steps   int
 	Blocked []string // on deadlock: "<goroutine id> <op> @<site>" of everything parked
 	Spawned int
+	Goroutines []string // hierarchical ids of every goroutine of the run
 }
 
 // Sched is the state of one controlled run.
@@ -158,6 +160,7 @@ type Sched struct {
 	last    []*G
 	prefix  []int
 	ncpu    int
+	starve  string
 	key     uint64
 	res     Result
 	// hidIdx maps the schedule-independent goroutine name hash to a small int for clocks
@@ -311,6 +314,7 @@ func (s *Sched) spawn(parent *G, f func()) *G {
 	s.gs = append(s.gs, child)
 	s.running++
 	s.res.Spawned++
+	s.res.Goroutines = append(s.res.Goroutines, id)
 	s.mu.Unlock()
 	started := make(chan struct{})
 	go func() {
@@ -713,6 +717,14 @@ func (s *Sched) event(g *G, kind opKind, site string, a, b int, partner uint64) 
 	s.key += h
 }
 
+func (s *Sched) starved(g *G) bool {
+	if strings.HasSuffix(s.starve, "*") {
+		p := strings.TrimSuffix(s.starve, "*")
+		return g.id == p || strings.HasPrefix(g.id, p+".")
+	}
+	return g.id == s.starve
+}
+
 func (s *Sched) lastHash() uint64 {
 	var h uint64
 	for _, g := range s.last {
@@ -723,7 +735,14 @@ func (s *Sched) lastHash() uint64 {
 
 // Run executes body under the controlled scheduler following prefix, then choice 0 everywhere.
 func Run(prefix []int, ncpu int, body func()) *Result {
-	s := &Sched{byGoid: map[int64]*G{}, chans: map[uintptr]*chanState{}, wg: map[interface{}]*wgState{}, locks: map[interface{}]*lockState{}, prefix: prefix, ncpu: ncpu}
+	return RunStarving(prefix, "", ncpu, body)
+}
+
+// RunStarving is Run with a priority policy after the prefix: the goroutine with hierarchical id
+// `starve` (and, with a trailing "*", its descendants) is only scheduled when nothing else is enabled.
+// The choices taken are recorded in Trace as usual, so the execution can be replayed with Run.
+func RunStarving(prefix []int, starve string, ncpu int, body func()) *Result {
+	s := &Sched{byGoid: map[int64]*G{}, chans: map[uintptr]*chanState{}, wg: map[interface{}]*wgState{}, locks: map[interface{}]*lockState{}, prefix: prefix, ncpu: ncpu, starve: starve}
 	s.cond = sync.NewCond(&s.mu)
 	curMu.Lock()
 	if cur != nil {
@@ -815,6 +834,17 @@ func Run(prefix []int, ncpu int, body func()) *Result {
 		}
 		ts = ts2
 		o0 := ts[0].g.pend
+		if s.starve != "" && len(s.res.Trace) >= len(s.prefix) {
+			// first alternative (canonical order) that does not involve the starved goroutine
+			want := 0
+			for i, t := range ts {
+				if !s.starved(t.g) && (t.partner == nil || !s.starved(t.partner)) {
+					want = i
+					break
+				}
+			}
+			s.prefix = append(append([]int{}, s.res.Trace...), want)
+		}
 		c := s.pick(len(ts), costs, "sched", o0.site)
 		t := ts[c]
 		s.res.Steps++
